@@ -396,6 +396,7 @@ CL_IDS = "ensures data_ids equal (explicit ids kept, default ids stay hash(data)
 CL_KINDS = "ensures node kinds equal"
 CL_GROUPS = "ensures clone groups equal (partition of nodes by data_id)"
 CL_SHARED = "ensures the members of a clone group share one data object"
+CL_PARENT = "ensures the load mapper is called with the parent node of the node being created"
 CL_META = "ensures file_meta == header keys + meta passed to save"
 CL_WF = "ensures result is well-formed"
 CL_INDEP = "ensures loaded result does not depend on the storage options"
@@ -502,6 +503,34 @@ def time_limit(seconds: float):
         signal.signal(signal.SIGALRM, old)
 
 
+class ParentRecorder:
+    """Wraps a deserialize mapper (documented signature mapper(parent, data)): notes the `parent` node of every call
+    and what the mapper returned, so that the finished tree can be asked whether each object ended up below the
+    node the mapper was shown (an inverse mapper may rebuild an object from its parent, e.g. a relative path)."""
+
+    def __init__(self, de):
+        self.de, self.calls = de, []
+
+    def __call__(self, parent, item):
+        r = self.de(parent, item)
+        self.calls.append((parent, item if r is None else r))
+        return r
+
+    def misplaced(self, tree) -> list:
+        have: dict = {}
+        for n in view.reachable(tree):
+            k = (id(n._parent), id(n._data))
+            have[k] = have.get(k, 0) + 1
+        bad = []
+        for parent, r in self.calls:
+            k = (id(parent), id(r))
+            if have.get(k, 0) > 0:
+                have[k] -= 1
+            else:
+                bad.append(f"mapper was called with parent={parent!r} for {r!r}, but no node below that parent carries that object")
+        return bad
+
+
 def _exc(e) -> str:
     return f"{type(e).__name__}: {clip(str(e), 200)}"
 
@@ -517,8 +546,9 @@ def save_load(fam: Family, tree, labels, opts, tmpdir):
         skw["mapper"] = fam.save_mapper
     file_meta = {}
     lkw = dict(file_meta=file_meta)
+    rec = None
     if fam.load_mapper is not None:
-        lkw["mapper"] = fam.load_mapper
+        rec = lkw["mapper"] = ParentRecorder(fam.load_mapper)
     cls = fam.load_cls
     path = os.path.join(tmpdir, "t.nutree")
     buf = None
@@ -562,6 +592,8 @@ def save_load(fam: Family, tree, labels, opts, tmpdir):
         except Exception:  # noqa: BLE001
             pass
         return None, file_meta, [(CL_LOAD_EXC, f"load() of the saved document raised {_exc(e)}" + (f"; document: {clip(doc, 240)}" if doc else ""))]
+    if rec is not None:
+        return loaded, file_meta, [(CL_PARENT, t) for t in rec.misplaced(loaded)[:2]]
     return loaded, file_meta, []
 
 
